@@ -8,7 +8,7 @@ The thresholds and comparison operators of priIsPrimeW are NOT translated: they 
 Bee2V/C12/ModelPri.lean and tied by the correspondence run (so a `<` turned into `<=` is a disagreement).
 Fail-closed: an unrecognised shape raises XlateError.
 """
-import os, re
+import collections, os, re
 
 REPO = os.environ.get("BEE2_REPO", "/repo")
 
@@ -82,6 +82,44 @@ def extract_lr(rel):
     return list(zip(out[0], out[1]))
 
 
+def _src(rel):
+    return _strip_comments(open(os.path.join(REPO, rel), encoding="utf-8", errors="replace").read())
+
+
+def _one(rel, pattern, what):
+    """the unique match of `pattern` in the file (fail-closed: none or several -> error)"""
+    ms = re.findall(pattern, _src(rel), flags=re.S)
+    if len(ms) != 1:
+        raise XlateError("%s: %s: expected exactly one occurrence, found %d" % (rel, what, len(ms)))
+    return ms[0]
+
+
+def extract_consts():
+    """numeric constants of the validators' condition lists (MOV thresholds, size bounds, chain margins)"""
+    c = collections.OrderedDict()
+    c["movBign"] = int(_one("src/crypto/bign/bign_params.c", r"ecpIsSafeGroup\(ec,\s*(\d+)\s*,\s*stack\)", "MOV threshold of bignParamsVal"))
+    c["movBignGen"] = int(_one("src/crypto/bign/bign_params.c", r"ecpMOVIsMet\(q,\s*p,\s*n,\s*(\d+)\s*,\s*stack\)", "MOV threshold of bignParamsGen"))
+    c["movBign96"] = int(_one("src/crypto/bign96.c", r"ecpIsSafeGroup\(ec,\s*(\d+)\s*,\s*stack\)", "MOV threshold of bign96ParamsVal"))
+    a, b, d = _one("src/crypto/g12s.c", r"ecpIsSafeGroup\(ec,\s*params->l\s*==\s*(\d+)\s*\?\s*(\d+)\s*:\s*(\d+)\s*,\s*stack\)",
+                   "MOV thresholds of g12sParamsVal")
+    if a != "256":
+        raise XlateError("g12s.c: the MOV threshold is not selected by l == 256")
+    c["movG12s256"], c["movG12s512"] = int(b), int(d)
+    c["movDstu"] = int(_one("src/crypto/dstu.c", r"ec2IsSafeGroup\(ec,\s*(\d+)\s*,\s*stack\)", "MOV threshold of dstuParamsVal"))
+    c["dstuOrderBits"] = int(_one("src/crypto/dstu.c", r"wwBitSize\(ec->order,\s*ec->f->n\)\s*<=\s*(\d+)", "order size bound of dstuParamsVal"))
+    lo, hi = _one("src/crypto/dstu.c", r"\(m = params->p\[0\]\)\s*<\s*(\d+)\s*\|\|\s*m\s*>\s*(\d+)", "extension degree bounds of dstuEcCreate")
+    c["dstuMinM"], c["dstuMaxM"] = int(lo), int(hi)
+    bs = re.findall(r"params->l\s*==\s*(\d+)\s*&&\s*nb\s*<=\s*(\d+)", _src("src/crypto/g12s.c"))
+    if [x[0] for x in bs] != ["256", "512", "256", "512"]:
+        raise XlateError("g12s.c: bit-size bounds of g12sEcCreate not recognised: %r" % (bs,))
+    c["g12sPBits256"], c["g12sPBits512"], c["g12sQBits256"], c["g12sQBits512"] = [int(x[1]) for x in bs]
+    for nm, rel, arr in (("stb99DiMargin", "src/crypto/stb99.c", "di"), ("stb99RiMargin", "src/crypto/stb99.c", "ri"),
+                         ("pfokLiMargin", "src/crypto/pfok.c", "li")):
+        m = _one(rel, r"5 \* seed->%s\[i\] >= 4 \* seed->%s\[i - 1\]((?:\s*-\s*\d+)?)\s*\)" % (arr, arr), "chain rule of %s" % arr)
+        c[nm] = int(m.replace("-", "").strip() or "0")
+    return c
+
+
 def _arr(name, xs, per=16):
     lines = []
     for i in range(0, len(xs), per):
@@ -109,6 +147,18 @@ def generate():
     return "\n".join(out)
 
 
+def generate_consts():
+    """Bee2V/Gen/C12Consts.lean (a separate file: a changed constant must not rebuild the factor-base lemmas)"""
+    cs = extract_consts()
+    out = ["/- GENERATED by xlate/x_c12.py from bign_params.c, bign96.c, g12s.c, dstu.c, stb99.c, pfok.c -- do not edit.\n"
+           "   Numeric constants of the validators' condition lists, as written in the source. -/\n"
+           "namespace Bee2V.Gen.C12\n"]
+    for k, v in cs.items():
+        out.append("def %s : Nat := %d" % (k, v))
+    out.append("\nend Bee2V.Gen.C12\n")
+    return "\n".join(out)
+
+
 if __name__ == "__main__":
     import sys
-    sys.stdout.write(generate())
+    sys.stdout.write(generate_consts() if sys.argv[1:] == ["consts"] else generate())
